@@ -177,23 +177,19 @@ def clip_segment(segment, bounds):
 
         if code & 1: # Vertex on LEFT side of bounds:
             x_new = x_min  # Find intersection of our segment with x_min
-            slope = (y_2 - y_1) / (x_2 - x_1)
-            y_new = slope * (x_min - x_1) + y_1
+            y_new = (y_2 - y_1) * ((x_min - x_1) / (x_2 - x_1)) + y_1
 
         elif code & 2:  # Vertex on RIGHT side of bounds:
             x_new = x_max # Find intersection of our segment with x_max
-            slope = (y_2 - y_1) / (x_2 - x_1)
-            y_new = slope * (x_max - x_1) + y_1
+            y_new = (y_2 - y_1) * ((x_max - x_1) / (x_2 - x_1)) + y_1
 
         elif code & 4: # Vertex on TOP side of bounds:
             y_new = y_min  # Find intersection of our segment with y_min
-            slope = (x_2 - x_1) / (y_2 - y_1)
-            x_new = slope * (y_min - y_1) + x_1
+            x_new = (x_2 - x_1) * ((y_min - y_1) / (y_2 - y_1)) + x_1
 
         elif code & 8: # Vertex on BOTTOM side of bounds:
             y_new = y_max  # Find intersection of our segment with y_max
-            slope = (x_2 - x_1) / (y_2 - y_1)
-            x_new = slope * (y_max - y_1) + x_1
+            x_new = (x_2 - x_1) * ((y_max - y_1) / (y_2 - y_1)) + x_1
 
         if code == code_1:
             x_1 = x_new
